@@ -453,7 +453,8 @@ CHECKS['C09'] = dict(
          "next packet (also with frame_size twice the packet). burst: long bursts 1..10 s and random 10 % loss. Every call is checked for "
          "the requested duration, finite samples, final range of received packets, level bounds against the last 500 ms decoded, decay after "
          "1 s, FEC vs concealment on a cloned decoder (error energy against the loss-free twin where LBRR is present, exact equality where it "
-         "is not), and convergence to the loss-free twin 1 s after the last loss. Exhaustive over the 2^k patterns of each window.",
+         "is not), the sub-frame gains of every frame rebuilt from LBRR data against the gains the encoder quantised that LBRR frame with "
+         "(hooks H3 and H2), and convergence to the loss-free twin 1 s after the last loss. Exhaustive over the 2^k patterns of each window.",
     assumptions=COMMON_ASSUME + ["thresholds are the committed constants of calib/c09.json (measured on the pinned tree with margin): kappa, peak kappa, delta, rho, recovery SNR",
                                  "the stimulus has a quiet background (speech-like bursts over -60 dB noise), as the decay clause requires"],
     evals_counter='patterns',
@@ -465,7 +466,7 @@ CHECKS['C09'] = dict(
         dict(h='h_c09.c', mode='burst', flavour='asan-fixed', n={'quick': 64, 'thorough': 1600}),
     ],
     min_nontrivial={'quick': 40, 'thorough': 60},
-    min_counters={'quick': {'patterns': 60000, 'plc_calls': 500000, 'fec_calls': 50000, 'fec_lbrr_events': 10000, 'recoveries_checked': 50000, 'bursts_over_1s': 600},
+    min_counters={'quick': {'patterns': 60000, 'plc_calls': 500000, 'fec_calls': 50000, 'fec_lbrr_events': 10000, 'lbrr_subframe_gains_compared': 100000, 'recoveries_checked': 50000, 'bursts_over_1s': 600},
                   'thorough': {'patterns': 2000000}},
 )
 
